@@ -68,3 +68,28 @@ Theorem C10_no_backticks_no_code_inline :
     Forall (fun t => ttype t <> s_code_inline) r.
 Proof. exact InlineProducers.no_backticks_no_code_inline. Qed.
 Print Assumptions C10_no_backticks_no_code_inline.
+
+(* the inline_definitions option only adds definition tokens: the reference rule under two configurations that differ in nothing
+   but this option, from the same state with the same terminator callback, gives the same answer; the same state when it fails
+   or runs silently; and otherwise the state with the option on is the state with the option off plus exactly ONE token at the
+   end of the token list - a "definition" token, nesting 0, whose map is the definition's own lines - env, line, parent type
+   and everything else identical *)
+From RecordUpdate Require Import RecordUpdate.
+From MD Require Import Model.StateBlock Lemmas.RefDefs.
+Theorem C10_inline_definitions_only_adds_a_token :
+  forall cfg rf cf term st sl el silent b1 s1 b2 s2,
+  r_reference (with_defs cfg false) rf cf term st sl el silent = Ok (b1, s1) ->
+  r_reference (with_defs cfg true) rf cf term st sl el silent = Ok (b2, s2) ->
+  b2 = b1 /\ (b1 = false \/ silent = true -> s2 = s1)
+  /\ (b1 = true -> silent = false ->
+      exists d, ttype d = s_definition /\ tnesting d = 0 /\ tmap d = Some (sl, b_line s1)
+                /\ s2 = s1 <| b_tokens := b_tokens s1 ++ [d] |>).
+Proof. exact reference_inline_defs. Qed.
+Print Assumptions C10_inline_definitions_only_adds_a_token.
+
+(* with_defs changes that one field *)
+Theorem C10_with_defs_means :
+  forall cfg b, c_inline_defs (with_defs cfg b) = b /\ c_rules (with_defs cfg b) = c_rules cfg /\ c_term (with_defs cfg b) = c_term cfg
+             /\ c_code (with_defs cfg b) = c_code cfg /\ c_maxNesting (with_defs cfg b) = c_maxNesting cfg /\ c_html (with_defs cfg b) = c_html cfg.
+Proof. exact with_defs_fields. Qed.
+Print Assumptions C10_with_defs_means.
